@@ -47,6 +47,14 @@ def kernel_cases(ctx):
         for ax in ([-1.0, 1.0, 1e-05], [1e-05, -1.0, 1.0], [1.0, 1e-05, -1.0], [1.0, 1.0, 1e-4], [-1.0, 1e-6, 1.0]):
             for a in (3.141592652589793, -3.141592652589793, 3.1415926525, 3.14159264):
                 cases.append({"nq": 1, "nb": 0, "specs": [["bsr", 0, ax, a, 0.0]], "pass": ["decompose", d]})
+    #  - b507e3a: the comparison used numpy's default atol 1e-8: the library's own 8-digit pi was refused
+    for d in DEC_NAMES:
+        for ax in ([1.0, 0.0, 0.0], [0.0, 1.0, 0.0], [0.0, 0.0, 1.0], [-1.0, 1.0, 0.0], [1.0, 1.0, 1.0]):
+            for a in (3.1415927, -3.1415927, 1.5707963, 3.14159265):
+                if d == "cnot":
+                    cases.append({"nq": 2, "nb": 0, "specs": [["ctrl", 0, ["bsr", 1, ax, a, 0.0]]], "pass": ["decompose", d]})
+                else:
+                    cases.append({"nq": 1, "nb": 0, "specs": [["bsr", 0, ax, a, 0.0]], "pass": ["decompose", d]})
     for d, ax, a in full:
         ph = rng.choice([0.0, PI / 2, rng.uniform(-PI, PI)])
         if d == "cnot":
